@@ -119,14 +119,23 @@ def run(ctx):
         gsrc_blocks = []
         for b, i, s in epochs:
             for src in field_sources(v, {"k": "copy", "pl": s["lhs"]}, ("start_time",), (b, i + 1)):
-                if src.operand is not None and gen(v.origins_of_operand(src.operand, at=(src.block, src.idx))):
+                if src.operand is None:
+                    continue
+                if gen(v.origins_of_operand(src.operand, at=(src.block, src.idx))):
                     gsrc_blocks.append(src.block)
+                elif src.operand["k"] in ("copy", "move") and not src.operand["pl"]["p"]:
+                    # `let start_time = if first { genesis } else { prev + duration }`: the definition that carries genesis
+                    for d in v.defs().get(src.operand["pl"]["l"], []):
+                        if d[0] == "s" and d[3]["rv"]["r"] == "use" and gen(v.origins_of_operand(d[3]["rv"]["op"], at=(d[1], d[2]))):
+                            gsrc_blocks.append(d[1])
         # fall back: blocks where a local is assigned from the genesis value
         gblocks = set()
         for b, i, s in v.iter_stmts():
             if s["rv"]["r"] == "use" and s["rv"]["op"]["k"] in ("copy", "move"):
                 if gen(v.origins_of_operand(s["rv"]["op"], at=(b, i))) and "Timestamp" in v.local_ty(s["lhs"]["l"]):
                     gblocks.add(b)
+        if gsrc_blocks:
+            gblocks = set(gsrc_blocks)      # where the new epoch's start_time actually receives the genesis value
         tab, n, blocks = two_var_table(v, is_env_time(v), gen, sorted(gblocks))
         expg = {"<": False, "=": True, ">": True}
         ctx.ob("C20-E1", "%s|not-before-genesis" % p, n > 0 and bool(gblocks) and tab == expg,
